@@ -7,19 +7,19 @@ SPEC = dict(
     design_ref="DESIGN.md §5 C36",
     technique="Lean 4 proofs over all choice tapes (invariants / induction over the hooks' loops and over histories) + differential correspondence of the real hooks and run_hooks under a scripted bolero driver",
     level_text=("Model: every SimHook of hydro_lang/src/sim/runtime.rs (StreamHook total/no order, KeyedStreamHook both orders, "
-                "SingletonHook, PassthroughSingletonHook, KeyedSingletonHook, the six TopLevel* hooks) transcribed line by line as "
+                "SingletonHook, PassthroughSingletonHook, KeyedSingletonHook, the six TopLevel* hooks) and every SimInlineHook (StreamOrderHook, MergeOrderedHook, KeyedStreamOrderHook, PartiallyOrderedStreamHook, KeyedMergeOrderedHook) transcribed line by line as "
                 "functions of (pending queues, choice tape, force_nontrivial), plus run_hooks' two passes, hook_can_release and "
                 "can_run of compiled.rs. Theorems, for every tape: ordered inputs release a prefix, unordered ones complementary "
                 "in-order sub-multisets (Split), per key for keyed inputs (KeyedRel); released ++ remaining is a permutation of the "
                 "pending items; over every history of pushes/decisions a SingletonHook's released versions never decrease; "
-                "a runnable tick with idle hooks that completes run_hooks made a non-trivial decision; the unconditional form is refuted on the model (F36: a tick holding an empty PassthroughSingletonHook panics for every tape; reproduced end to end, known finding). Tie: the same op lines (hook "
+                "StreamOrderHook releases a permutation and MergeOrderedHook an order-preserving interleaving; a runnable tick with idle hooks that completes run_hooks made a non-trivial decision; the unconditional form is refuted on the model (F36: a tick holding an empty PassthroughSingletonHook panics for every tape; reproduced end to end, known finding). Tie: the same op lines (hook "
                 "creation, feeding, autonomous_decision with a tape, release_decision, can_run, run_hooks via a cfg-guarded "
                 "re-export) run on the real hooks with a scripted DynDriver and on the compiled model; every answer, the "
                 "driver-call log (ranges + values) and the queue contents are diffed; the property is also evaluated on the real "
                 "outputs by an independent oracle."),
     level_note=("Trusted: Lean kernel + propext/Classical.choice/Quot.sound; FxHashMap iteration order is an input of the model "
                 "(observed from the real map and written into the op line); unsync mpsc channel, VecDeque, bolero's Borrowed/"
-                "scope plumbing are exercised, not modelled; the inline (in-tick) order hooks and the scheduler loop around "
+                "scope plumbing are exercised, not modelled; the keyed inline hooks have no theorem (correspondence + oracle only); the scheduler loop around "
                 "run_hooks (LaunchedSim::step) are not modelled; harness/differ are our code."),
     trusted_base=["FxHashMap iteration order taken as an explicit input (association list in observed order)",
                   "dfir_rs unsync mpsc channel / VecDeque / bolero scope exercised by correspondence, not modelled",
